@@ -420,6 +420,20 @@ pub fn observe(c: &ExecCase, env: &mut ExecEnv) -> String {
         s.push_str(&format!("rvtimeouts={};", list(&t)));
     }
     s.push_str(&format!("world={};states={};runs={};", world_values(&c.regs, c.map, &world), states(&handles), runs(&handles)));
+    // --- another world (C04/C01/C13): the same dispatcher set up for and dispatched on a SECOND world, then again on the first
+    if c.faults.is_empty() {
+        let mut wb = make_world(&c.regs, c.map);
+        let rs = catch_unwind(AssertUnwindSafe(|| dispatcher.setup(&mut wb)));
+        let _ = rec.take();
+        let r = catch_unwind(AssertUnwindSafe(|| dispatcher.dispatch(&wb)));
+        let log = fix_multi(rec.take(), &multis);
+        let payload = match &r { Ok(()) => "-".to_string(), Err(p) => hexs(&payload_string(p)) };
+        s.push_str(&format!("TW={};PW={};probeW={};setupWok={};", encode(&log), payload, probe(&c.regs, c.map, &wb), rs.is_ok() as u8));
+        let r = catch_unwind(AssertUnwindSafe(|| dispatcher.dispatch(&world)));
+        let log = fix_multi(rec.take(), &multis);
+        let payload = match &r { Ok(()) => "-".to_string(), Err(p) => hexs(&payload_string(p)) };
+        s.push_str(&format!("TB={};PB={};", encode(&log), payload));
+    }
     // --- twin: the same program, the same calls, sequentially
     if c.faults.is_empty() {
         let rec2 = Recorder::new(c.map);
